@@ -24,7 +24,7 @@ RULE = ('a case = one (expression, input string, chunking) run of a real machine
         'then seeded larger ones; distinct by (expression text, input, chunking); non-trivial = the oracle comparison was evaluated (always) and the input is non-empty')
 ASSUMPTIONS = ['greenery syntax == re syntax for the generated constructs (checked: oracle vs re.fullmatch on every prefix)',
                "'.' and negated classes match any symbol, including ones outside the expression's alphabet"]
-REQUIRED = ['expressions:hundreds-of-states', 'expressions:control-symbols', 'str:runs', 'str:accepted', 'str:rejected-nonterminal', 'str:stopped-before-end-accepting', 'str:input-exhausted-not-accepting',
+REQUIRED = ['expressions:non-greedy-wrapper', 'expressions:hundreds-of-states', 'expressions:control-symbols', 'str:runs', 'str:accepted', 'str:rejected-nonterminal', 'str:stopped-before-end-accepting', 'str:input-exhausted-not-accepting',
             'bytes-ascii:runs', 'bytes-multibyte:runs', 'oracle:re-crosschecks', 'chunking:two-way', 'chunking:bytewise', 'bytes-multibyte:truncated-encoding']
 TIMEOUT = {'quick': 300, 'thorough': 2400}
 SOFT = {'quick': 40, 'thorough': 900}
@@ -159,7 +159,7 @@ class Mon:
         real_violation = ctx.violation
 
         def attributed(key, what, wit):
-            if kind in ('str', 'bytes-ascii', 'bytes-multibyte') and self.greenery_disagrees(text, w):
+            if kind in ('str', 'bytes-ascii', 'bytes-multibyte', 'str-nongreedy', 'bytes-nongreedy') and self.greenery_disagrees(text, w):
                 key = 'greenery-misparses-expression'
             real_violation(key, what, wit)
         viol = attributed
@@ -246,6 +246,15 @@ class Mon:
             ctx.violation('construction-raises', 'regex(%r) construction raised %r' % (text, exc), {'regex': text})
             return
         ctx.count('expressions')
+        m_ng = m_ngb = None
+        self.n_expr = getattr(self, 'n_expr', 0) + 1
+        if self.n_expr % 3 == 0:
+            try:
+                m_ng = construct(lambda **kw: cpppo.regex(greedy=False, **kw), text)
+                m_ngb = construct(lambda **kw: cpppo.regex_bytes(greedy=False, **kw), text)
+                ctx.count('expressions:non-greedy-wrapper')
+            except SlowConstruction:
+                m_ng = m_ngb = None
         for w in inputs:
             P, accepted, member = dfa.analyse(w)
             if not self.crosscheck(text, dfa, w, member):
@@ -255,6 +264,13 @@ class Mon:
             wb = w.encode('ascii')
             for label, chunks in self.chunkings(wb, min(1, chunk_level(w))):
                 self.judge('bytes-ascii', text, m_byt, wb, chunks, label, P, accepted, True)
+            if m_ng is not None:
+                # the wrappers' non-greedy configuration (the default of string / string_bytes): the sub-machine's states are still
+                # greedy, so the outcome is the same -- whole or in chunks
+                for label, chunks in self.chunkings(w, chunk_level(w)):
+                    self.judge('str-nongreedy', text, m_ng, w, chunks, label, P, accepted, False)
+                for label, chunks in self.chunkings(wb, chunk_level(w)):
+                    self.judge('bytes-nongreedy', text, m_ngb, wb, chunks, label, P, accepted, True)
         if ctx.want_sample() and ctx.rng.random() < 0.02:
             w = inputs[len(inputs) // 2] if inputs else ''
             P, accepted, _ = dfa.analyse(w)
